@@ -69,6 +69,14 @@ def build_api(position, words):
             # a variable that merely STARTS with the word stands before the variable named by the word
             req = dict(name=M, fields=[dict(name=f'{w}_id'), dict(name=w), dict(name='plain')])
             http = [dict(verb='post', uri='/v1/m%d/{%s_id=*}/things/{%s=items/*}' % (i, w, w), body='*')]
+        elif position == 'http_path_head':
+            msgs.append(inner)
+            req = dict(name=M, fields=[dict(name=w, type=f'In{i}'), dict(name='plain')])
+            http = [dict(verb='post', uri='/v1/m%d/{%s.other=items/*}' % (i, w), body='*')]
+        elif position == 'http_body_additional':
+            msgs.append(inner)
+            req = dict(name=M, fields=[dict(name=w, type=f'In{i}'), dict(name='plain')])
+            http = [dict(verb='post', uri='/v1/m%d/{plain=first/*}' % i, body=w), dict(verb='post', uri='/v1/m%d/{plain=second/*}' % i, body=w)]
         elif position == 'http_path_top':
             req = dict(name=M, fields=[dict(name=w), dict(name='plain')]); http = [dict(verb='post', uri='/v1/m%d/{%s=items/*}' % (i, w), body='*')]
         elif position == 'http_path_dotted':
